@@ -1333,8 +1333,17 @@ def from_str(x, prec, rnd=round_fast):
     # XXX: appropriate cutoffs & track direction
     # note no factors of 5
     if abs(exp) > 400:
-        s = from_int(man, prec+10)
-        s = mpf_mul(s, mpf_pow_int(ften, exp, prec+10), prec, rnd)
+        # Both factors are only approximated; round their magnitudes in the
+        # direction the final rounding goes, so that a directed rounding mode
+        # never ends up on the wrong side of the exact decimal value
+        if rnd == round_nearest:
+            rnd2 = round_down
+        elif rnd == round_up or rnd == [round_ceiling, round_floor][man < 0]:
+            rnd2 = round_up
+        else:
+            rnd2 = round_down
+        s = from_int(man, prec+10, rnd2)
+        s = mpf_mul(s, mpf_pow_int(ften, exp, prec+10, rnd2), prec, rnd)
     else:
         if exp >= 0:
             s = from_int(man * 10**exp, prec, rnd)
